@@ -271,7 +271,7 @@ def gen_post_step(rng, w, has_born, prev_wrote_fc, force_cmd=None):
         s["nowritemesh"] = True
     if rng.random() < 0.15 and mode != "readfc":
         s["mass"] = "__AUTO__"  # filled at run time: one (modified) mass per atom of the primitive cell
-    if cmd == "phonopy-load" and not has_born and "mass" not in s and mode != "pdos" and not prev_wrote_fc and rng.random() < 0.25:
+    if cmd == "phonopy-load" and not has_born and "mass" not in s and mode not in ("pdos", "writefc") and not prev_wrote_fc and rng.random() < 0.25:
         # (not after a write-fc step: compact force constants written for the yaml's primitive cell are no input for another one)
         # the primitive axes stated on the command line / in the configuration file override those recorded in the input yaml
         s["pa"] = "P"
